@@ -99,10 +99,23 @@ class LasData:
             raise errors.IncompatibleDataFormat(
                 "Cannot set points with a different point format, convert first"
             )
+        if new_points.point_format is not self.header.point_format:
+            # make sure both point format point to the same object; the record
+            # that was given may still belong to another LasData, so it is left
+            # alone: a record over the same array takes the header's point format
+            if isinstance(new_points, record.ScaleAwarePointRecord):
+                new_points = record.ScaleAwarePointRecord(
+                    new_points.array,
+                    self.header.point_format,
+                    scales=new_points.scales,
+                    offsets=new_points.offsets,
+                )
+            else:
+                new_points = record.PackedPointRecord(
+                    new_points.array, self.header.point_format
+                )
         self._points = new_points
         self.update_header()
-        # make sure both point format point to the same object
-        self._points.point_format = self.header.point_format
 
     @property
     def vlrs(self) -> VLRList:
